@@ -2,14 +2,14 @@
    Pinned: (1) the parser side of the hand-over (handover_segment, chunk_simulates): a parser thread started in the
    middle of the body skips to the next line start and then emits - until its stop rule fires - exactly the events
    the sequential parser emits from that line start on, provided the sequential parser is between tokens there;
-   no token is split, altered or invented at a seam.  (2) the storage side (appended_transparent): whatever the
-   per-thread encoders recorded is reported in chunk order with shifted time indices, de-duplicated across seams.
+   no token is split, altered or invented at a seam.  (2) the storage side (appended_transparent for bit vectors, appended_transparent_rs for reals
+   and strings): whatever the per-thread encoders recorded is reported in chunk order with shifted time indices, de-duplicated across seams.
    NOT proved: that the segments of consecutive threads tile the sequential event list without gap or overlap
    (it needs the line discipline of time stamps, and is false for the inputs of the known findings D8/D15/D16),
    and that the concatenated per-thread recordings equal the sequential recording; that part is decided by the
    correspondence run and the oracle. *)
 From WV Require Import Model.Base Model.Bits Model.WaveMem Model.VcdBody Spec.TimeSpec Spec.StoreSpec
-  Proofs.TimeTableProofs Proofs.StoreProofs Proofs.EncoderProofs Proofs.BodyProofs Proofs.HandoverProofs.
+  Proofs.TimeTableProofs Proofs.StoreProofs Proofs.EncoderProofs Proofs.BodyProofs Proofs.HandoverProofs Proofs.RealStringEnc.
 Open Scope N_scope.
 
 Check appended_transparent :
@@ -55,7 +55,28 @@ Check run_bytes_app :
     | Running s' => run_bytes debug stop_pos b s'
     end.
 
+Check appended_transparent_rs :
+  forall (parse_f64 : list byte -> option (list byte)),
+  (forall r le, parse_f64 r = Some le -> length le = 8%nat) ->
+  forall (lz_compress : list byte -> list byte) (lz_decompress : list byte -> nat -> option (list byte)),
+  (forall d n, (length d <= n)%nat -> lz_decompress (lz_compress d) n = Some d) ->
+  forall cap, 1 <= cap -> cap <= 65536 -> forall id str tpes
+         (opss : list (list enc_op)) (encs : list encoder) first others e blocks ttb,
+  nth_error tpes id = Some (rs_tpe str) ->
+  Forall2 (fun ops en => run_ops parse_f64 lz_compress cap (enc_new tpes) ops = Ok en) opss encs ->
+  Forall (fun ops => Forall (rs_op_ok id str) ops /\ ops_cost id ops < 4294967264) opss ->
+  encs = first :: others ->
+  append_all lz_compress first others = Ok e ->
+  enc_finish lz_compress e = Ok (blocks, ttb) -> N.of_nat (length ttb) < 4294967296 ->
+  exists Rs sig,
+    Forall2 (fun R ops => Forall2 (gdecodes parse_f64 str) R (recorded_rs id ops [] false)) Rs opss /\
+    load_signal lz_decompress blocks id (rs_tpe str) = Ok sig /\
+    observe_signal sig
+    = Ok (map (fun a : N * list byte => (fst a, if str then KString else KReal, snd a))
+              (gdedup (gcat_shift (combine Rs (map (fun ops => N.of_nat (length (accepted (times_of ops)))) opss)) 0))).
+
 Print Assumptions handover_segment.
+Print Assumptions appended_transparent_rs.
 Print Assumptions chunk_simulates.
 Print Assumptions appended_transparent.
 Print Assumptions run_bytes_app.
